@@ -150,7 +150,7 @@ Definition shift_arm (t : ity) (inj : Z -> value) (o : sop) (x : Z) (amount : op
               end
   end.
 
-Definition shift (o : sop) (a b : value) : res value :=
+Definition shift_op (o : sop) (a b : value) : res value :=
   match a, b with
   | Int x, Int y => shift_arm I32 Int o x (try_u32 y)
   | Int x, Big y => shift_arm I128 Big o (as_ I128 x) (try_u32 y)
@@ -165,7 +165,7 @@ Definition shift (o : sop) (a b : value) : res value :=
   end.
 
 (* ---------------------------------------------------------------- ordering: apply_bool_bin_op_if_applicable! *)
-Definition compare (o : cop) (a b : value) : res value :=
+Definition ord_op (o : cop) (a b : value) : res value :=
   match a, b with
   | Int x, Int y => Ok (Bool (cmp_Z o x y))
   | Int x, Flt y => Ok (Bool (cmp_F o (F_of_Z x) y))
@@ -241,8 +241,8 @@ Definition binop_eval (v : version) (op : binop) (a b : value) : res value :=
   match op with
   | Arith o => arith v o a b
   | Bit o => bit o a b
-  | Shift o => shift o a b
-  | Cmp o => compare o a b
+  | Shift o => shift_op o a b
+  | Cmp o => ord_op o a b
   | Equ Eq_ => lift Bool (equals a b)
   | Equ Ne_ => lift (fun r => Bool (negb r)) (equals a b)
   end.
